@@ -31,6 +31,8 @@ def run(rep, tier):
         c17.check_program(rep_, prog, rules=('R17a', 'R17c'))
         c07.r07k(rep_, prog)
         search.check_combine_types(rep_, prog)
+        from . import c16
+        c16.shared(rep_, prog, rules=('R16b', 'R16c', 'R16h'))
         # root weight of the shortest-path trees (candidate sort keys): shared with C14
         sub14 = type(rep_)(rep_.prop, rep_.tier)
         c14.check_program(sub14, prog)
@@ -39,6 +41,9 @@ def run(rep, tier):
                 rep_.add(i.rule, i.site, i.function, i.what, i.status, i.detail, key=i.key)
     rep.rule('R17a', 'support-vector sum / dot product are merges of strictly increasing lists (an incomplete sum leaves a support non-orthogonal: the phase then picks a heavier or dependent cycle)', floor=0)
     rep.rule('R17c', 'compound support-vector operators are alias-safe', floor=0)
+    rep.rule('R16b', 'forest index: dimension formula m - n + c (number of phases = number of cycles summed into the returned weight)', floor=1)
+    rep.rule('R16c', 'spanning_forest reports 0 components only for the graph without vertices', floor=1)
+    rep.rule('R16h', 'n, m and the component count are assigned on every path through create_index (an edgeless graph must yield weight 0, not 2^64 - n phases)', floor=1)
     rep.rule('R02j', 'the saturating sum of the searches is applied in the distance type (no floating -> integral truncation of weights)', floor=4)
     rep.rule('R07k', 'numeric_limits<T>::infinity() only for floating-point T (0 for integral weight types)', floor=0)
     rep.rule('R14d', 'the root node of a shortest-path tree has weight zero (candidate weights are the sort keys of the first-found lookup)', floor=0)
